@@ -8,6 +8,7 @@ import (
 	"path/filepath"
 	"runtime"
 	"sort"
+	"strings"
 	"sync"
 )
 
@@ -34,6 +35,51 @@ type Failure struct {
 func (s *Shard) Emit(caseLine, obs string) {
 	s.cases = append(s.cases, caseLine)
 	s.obs = append(s.obs, obs)
+	// input distribution (reported in the evidence): case kind, size, operations used, outcome
+	kind := caseLine
+	if i := strings.IndexByte(caseLine, ' '); i > 0 {
+		kind = caseLine[:i]
+	}
+	s.counts["kind:"+kind]++
+	switch n := len(caseLine); {
+	case n <= 64:
+		s.counts["size:<=64"]++
+	case n <= 256:
+		s.counts["size:<=256"]++
+	case n <= 1024:
+		s.counts["size:<=1024"]++
+	case n <= 8192:
+		s.counts["size:<=8192"]++
+	default:
+		s.counts["size:>8192"]++
+	}
+	if i := strings.LastIndex(obs, " # "); i >= 0 || strings.HasPrefix(obs, "# ") {
+		out := strings.TrimPrefix(obs[i+1:], "# ")
+		if j := strings.IndexByte(out, ' '); j > 0 {
+			out = out[:j]
+		}
+		if len(out) > 48 {
+			out = out[:48]
+		}
+		s.counts["outcome:"+out]++
+	} else if strings.Contains(obs, "E=") {
+		s.counts["outcome:encoder-error"]++
+	} else if strings.HasPrefix(obs, "PANIC") {
+		s.counts["outcome:PANIC"]++
+	}
+	if kind == "enc" || kind == "ren" {
+		if i := strings.IndexByte(caseLine, '|'); i > 0 {
+			for _, part := range strings.Split(caseLine[i+1:], ";") {
+				part = strings.TrimSpace(part)
+				if j := strings.IndexByte(part, ' '); j > 0 {
+					part = part[:j]
+				}
+				if part != "" && part != "-" {
+					s.counts["op:"+part]++
+				}
+			}
+		}
+	}
 }
 
 // EmitRun emits a case and runs it through the generic case runner.
